@@ -214,11 +214,23 @@ def main(argv=None):
                     for oi, ob in enumerate(rep["obligations"]):
                         if ob.get("status") == "pending":
                             t = ((len(results) - 1, oi), ob.pop("smt2"), ob.pop("relaxed", None), so["timeout_ms"], so["cvc5_timeout_ms"], ob.pop("noseq", None), ob.pop("linear", None), ob.pop("sliced", None))
-                            solve_async.append(pool.apply_async(_run, (("solve", t),)))
+                            solve_async.append((t if r[0] != "mutant" else None, pool.apply_async(_run, (("solve", t),))))
             # phase 2: collect the solver verdicts
-            for ar in solve_async:
+            retry = []
+            for t, ar in solve_async:
                 _, (ri, oi), verdict = ar.get()
                 results[ri][2]["obligations"][oi].update(verdict)
+                if verdict["status"] == "undecided" and t is not None:
+                    retry.append(t)
+            # phase 3: the few obligations left undecided get a second, longer attempt when the pool is otherwise idle
+            # (a busy machine must not turn into an undischarged obligation; on broken code there are too many to retry)
+            if 0 < len(retry) <= 12:
+                again = [pool.apply_async(_run, (("solve", t[:3] + (3 * t[3], 3 * t[4]) + t[5:]),)) for t in retry]
+                for ar in again:
+                    _, (ri, oi), verdict = ar.get()
+                    if verdict["status"] != "undecided":
+                        verdict["note"] = (verdict.get("note", "") + " (second attempt, 3x budget)").strip()
+                        results[ri][2]["obligations"][oi].update(verdict)
         for r in results:
             if r[0] in ("fn", "lemma", "mutant") and r[2]["status"] != "NOT-APPLICABLE":
                 settle(r[2])
